@@ -248,8 +248,9 @@ class AndGate(IMultiplier):
       self.output.is_floating_point = self.input.is_floating_point |\
                                       self.weights.is_floating_point
 
-      if weight_quantizer.name == "binary" and weight_quantizer.use_01:
-        # binary(0,1) * datatype -> int_bits = datatype.int_bits
+      if weight_quantizer.mode == 4:
+        # 0/1 gate (binary(use_01), bernoulli, quantized_relu(1,1)) * datatype
+        # -> int_bits = datatype.int_bits
         self.output.int_bits = input_quantizer.int_bits
       else:
         self.output.int_bits = weight_quantizer.int_bits
